@@ -127,7 +127,7 @@ def escapes(P, R):
     for bid in f.reachable_blocks():
         for e in f.out[bid]:
             if e.label == 'case' and e.vs and len(e.vs) == 1 and chr(e.vs[0]) in ESC:
-                st = [s for s in f.block_sites(e.dst) if s.ev['k'] == 'store' and s.ev.get('op') == '=' and const_of(s.ev.get('rhs')) is not None]
+                st = [s for s in f.block_sites(f.case_body(e.dst)) if s.ev['k'] == 'store' and s.ev.get('op') == '=' and const_of(s.ev.get('rhs')) is not None]
                 found[chr(e.vs[0])] = (st[0] if st else None, const_of(st[0].ev['rhs']) if st else None)
     for ch, want in sorted(ESC.items()):
         s, got = found.get(ch, (None, None))
@@ -175,7 +175,7 @@ def unit_tables(P, R):
         for bid in f.reachable_blocks():
             for e in f.out[bid]:
                 if e.label == 'case' and e.vs:
-                    adds = [s for s in f.block_sites(e.dst) if s.ev['k'] == 'store' and s.ev.get('op') == '+=' and is_var(s.ev.get('lhs'))]
+                    adds = [s for s in f.block_sites(f.case_body(e.dst)) if s.ev['k'] == 'store' and s.ev.get('op') == '+=' and is_var(s.ev.get('lhs'))]
                     for v in e.vs:
                         if 32 < v < 127 and adds:
                             pv = sorted(vars_in(adds[0].ev['rhs']))
@@ -196,7 +196,7 @@ def unit_tables(P, R):
         if c is not None and any(x.get('k') == 'un' and x['op'] == '++' for x in walk(c)):
             for e in f.out[bid]:
                 if e.label == 'case' and e.vs:
-                    adds = [s for s in f.block_sites(e.dst) if s.ev['k'] == 'store' and s.ev.get('op') == '+=']
+                    adds = [s for s in f.block_sites(f.case_body(e.dst)) if s.ev['k'] == 'store' and s.ev.get('op') == '+=']
                     if adds:
                         pv = sorted(vars_in(adds[0].ev['rhs']))
                         colon[e.vs[0]] = multiplier(adds[0].ev['rhs'], pv[0]) if pv else None
@@ -286,7 +286,7 @@ def parsed_on_success(P, R):
             if e.label == 'case' and e.vs:
                 for nm, fn in want.items():
                     if en.get(nm) in e.vs and len(e.vs) == 1:
-                        calls = [t for t in sv.block_sites(e.dst) if t.ev['k'] == 'call']
+                        calls = [t for t in sv.block_sites(sv.case_body(e.dst)) if t.ev['k'] == 'call']
                         ok = bool(calls) and calls[0].ev.get('callee') == fn and any(is_var(a.get('e', {}), 'success') for a in calls[0].ev['args'] if isinstance(a, dict))
                         R.ob('C16.GRD.2', ok, calls[0] if calls else sv, 'subtype %s is parsed by %s and reports through success' % (nm, fn), key='subtype:%s' % nm, nontrivial=False)
 
